@@ -391,7 +391,8 @@ impl<'a> Env<'a> {
     }
     pub fn bal(&self, a: A, who: u64) -> u128 {
         match a {
-            A::N(d) => self.app.wrap().query_balance(self.astr(who), self.denoms[d as usize].clone()).unwrap().amount.u128(),
+            // (the bank query validates the address string: an invalid one holds nothing)
+            A::N(d) => self.app.wrap().query_balance(self.astr(who), self.denoms[d as usize].clone()).map(|c| c.amount.u128()).unwrap_or(0),
             A::T(t) => {
                 // a query can fail on states only a defective implementation reaches (e.g. an unnormalised address
                 // recorded as a pair asset): observe 0 rather than abort the harness — the divergence is reported anyway
@@ -912,6 +913,8 @@ pub fn setup<'a>(w: &'a mut dyn Write, seq: u64, seed: u64, family: &str) -> (En
         env.decl_asset(A::T(aid));
         // as an *account* such a string fails address validation ("not normalized")
         writeln!(env.w, "bad {aid}").unwrap();
+        // observed like any account: a swap that (wrongly) accepts it as recipient must be judged on balances
+        env.accounts.push(aid);
     }
     for u in 0..users.len() {
         for d in 0..env.denoms.len() {
@@ -1597,7 +1600,7 @@ impl Gen {
                     }
                     3 | 4 | 5 | 6 => {
                         let d = r.below(e.denoms.len() as u64);
-                        Op::FAdd { s, funds: vec![], denom: d, decimals: r.below(19) as u8 }
+                        Op::FAdd { s, funds: vec![], denom: d, decimals: match r.below(12) { 0 => 19 + r.below(12) as u8, 1 => 255, _ => r.below(19) as u8 } }
                     }
                     7 => Op::FMig { s, funds: vec![], p: if r.chance(4, 5) { pm.addr } else { u },
                                      code: match r.below(4) { 0 => Some(e.pair_code), 1 => Some(e.pair_code + 77), _ => None } },
